@@ -21,6 +21,8 @@ harnesses! {
     h_loop_s3 => sc_loop(3, 2, 1, true), h_loop_s7 => sc_loop(7, 2, 1, true), h_loop_s4 => sc_loop(4, 2, 2, true),
     h_loopf_s0 => sc_loop(0, 2, 2, false), h_loopf_s1 => sc_loop(1, 2, 2, false), h_loopf_s6 => sc_loop(6, 2, 2, false),
     h_loop3_s0 => sc_loop(0, 3, 2, true),
+    // reader-built root (never in the configuration)
+    h_loopi_s1 => sc_loop_r(1, 2, 2, true, true), h_loopi_s6 => sc_loop_r(6, 2, 2, true, true),
     h_exit => exit_interpreter(),
     h_queues => queues(),
 }
@@ -44,8 +46,11 @@ pub fn loop_transition(sh: &Shape, k: u32, restricted: bool) -> (MT, u32, u32) {
 }
 
 /// The real main event loop over `kext` external events followed by the platform cancel event (or a top-level final state).
-fn sc_loop(shape_ix: u32, nt: u32, kext: u32, light: bool) {
-    let sh = shape_by_index(shape_ix);
+fn sc_loop(shape_ix: u32, nt: u32, kext: u32, light: bool) { sc_loop_r(shape_ix, nt, kext, light, false) }
+
+fn sc_loop_r(shape_ix: u32, nt: u32, kext: u32, light: bool, root_internal: bool) {
+    let mut sh = shape_by_index(shape_ix);
+    sh.root_internal = root_internal;
     let mut ts = Vec::new();
     let mut guards = Vec::new();
     let mut effects: Vec<(u32, u32)> = Vec::new();
@@ -129,7 +134,8 @@ fn sc_loop(shape_ix: u32, nt: u32, kext: u32, light: bool) {
 /// done.invoke goes to the parent iff a parent session exists and a top-level final state is active
 fn exit_interpreter() {
     let ix = vnd_range(0, NSHAPES - 1, 1);
-    let sh = shape_by_index(ix);
+    let mut sh = shape_by_index(ix);
+    sh.root_internal = vnd_bool(5);
     let m = Model { sh, ts: Vec::new(), late: false };
     let confs = m.sh.configs_of(1);
     let ci = vnd_range(0, confs.len() as u32 - 1, 2) as usize;
